@@ -164,6 +164,17 @@ def run(tier, out):
                 ev = h.do(("input", s, "user_time_spent", [70 if cur_min < 60 else 20, "min"]), compare_with_rebuild=False)
                 if ev["ev"] == "Raised":
                     continue
+            # two more: an input that is exactly 0 (a job that transfers nothing), then non-zero again -- what was computed while it
+            # was 0 must have kept it as an operand
+            jobs = [j for j in efx.names_of(h.model, "Job") if j in efx.reachable(h.model)]
+            if jobs:
+                j = rng.choice(sorted(jobs))
+                a = rng.choice(["data_transferred", "data_stored", "ram_needed"])
+                unit = h.model[j]["inp"][a][1]
+                back = h.model[j]["inp"][a][0] * 2 or efx.DEFAULTS["Job"][a][0]
+                if h.do(("input", j, a, [0, unit]), compare_with_rebuild=False)["ev"] == "Raised" or \
+                        h.do(("input", j, a, [back, unit]), compare_with_rebuild=False)["ev"] == "Raised":
+                    continue
             # plotting values that have a simulated twin, while the graph is still the one the edits left
             names = sorted(efx.reachable(h.model))
             i0, c0 = input_state(ns, h.live), calc_state(ns, h.live, names)
